@@ -6,7 +6,7 @@ G:  HostCall_Gen groups "frame" (per table and call: one-factor-at-a-time over t
     x memory-edge pointers, lengths 0/1/page-crossing/2^32/2^64-1, service ids existing / absent / existing + 2^32, gas classes,
     context variants) and "disp" (unknown identifiers of every class and the defined ones through Host.HostCall).
 X:  harness/hostcall (AccumulateOmegas / RefineOmegas / IsAuthorizedOmegas entries on a fresh OmegaInput, or the real dispatch).
-V:  HostCall_Trace mode c07: the frame for every call, the exact outcome for the 16 calls HostAccumulate defines."""
+V:  HostCall_Trace mode c07: the frame for every call, the exact outcome for the 22 calls HostAccumulate defines (all but the six inner-machine calls)."""
 import concurrent.futures as cf
 import json
 import os
@@ -20,8 +20,9 @@ def run(ctx):
     ctx.assumptions += ["the build under test is the tiny configuration (C = 2, V = 6, D = 32), the default of every test binary",
                         "host calls are entered with a gas counter >= -2^62 (the interpreter never hands over less than -1)",
                         "service contexts: the accumulating service's account exists, recorded footprints are coherent, no raw storage key-values (fuzzer pool) are pending",
-                        "exact outcomes are demanded for gas, lookup, read, write, info, export, checkpoint, new, upgrade, transfer, eject, query, solicit, forget, yield, log; "
-                        "fetch, historical_lookup (exact in C31), bless, assign, designate, provide and the six inner-machine calls (exact in C33) are judged by the frame only",
+                        "exact outcomes are demanded for every general, accumulate and refine call except the six inner-machine calls (machine, peek, poke, pages, invoke, expunge: "
+                        "exact in C33, judged by the frame here); fetch's codec-encoded values (E(p), E(p_x), accumulate inputs, constants) come from the repository's codec (C11)",
+                        "BLAKE2b (provide) and the FNV digests of guest ranges / queues / keys are computed by the driver as primitives; the three solicited hashes of the provide contexts are an oracle table checked against hashlib",
                         "the two instruction charges of the dispatch program (ecalli, trap: 1 each) are C04's per-instruction clause"]
     quick = ctx.quick
     with cf.ThreadPoolExecutor(8) as ex:
